@@ -55,7 +55,8 @@ type Scenario struct {
 	// block contradicting a checkpoint); BadNode delivers it; BanExpected: the engine bans for it.
 	BadBlock    int   `json:"bad_block,omitempty"`
 	BadNode     int   `json:"bad_node,omitempty"`
-	BadNodes    []int `json:"bad_nodes,omitempty"` // further misbehaving nodes (same host as BadNode)
+	BadNodes    []int `json:"bad_nodes,omitempty"`  // further misbehaving nodes
+	BadBlocks   []int `json:"bad_blocks,omitempty"` // their offending headers (parallel to BadNodes; default BadBlock)
 	BanExpected bool  `json:"ban_expected,omitempty"`
 	BanSeconds  int   `json:"ban_seconds,omitempty"` // configured ban duration (default 600)
 }
@@ -217,7 +218,7 @@ func (w *world) apply(e Event) {
 		if n.Deliver() && w.sc.BadBlock > 0 && w.isBad(e.Node) {
 			bad := false
 			for _, h := range n.lastReply {
-				if h.BlockHash() == chainhash.Hash(w.blocks[w.sc.BadBlock].Hash) {
+				if h.BlockHash() == chainhash.Hash(w.blocks[w.badBlockOf(e.Node)].Hash) {
 					bad = true
 				}
 			}
@@ -251,6 +252,15 @@ func (w *world) banSeconds() int {
 		return w.sc.BanSeconds
 	}
 	return 600
+}
+
+func (w *world) badBlockOf(node int) int {
+	for i, k := range w.sc.BadNodes {
+		if k == node && i < len(w.sc.BadBlocks) {
+			return w.sc.BadBlocks[i]
+		}
+	}
+	return w.sc.BadBlock
 }
 
 func (w *world) isBad(node int) bool {
